@@ -306,3 +306,338 @@ proof fn lemma_row_grows_start<V>(m0: Map<&str, V>, sc: ISet<Seq<char>>)
     lemma_grows_refl(m0);
     lemma_grows_same(m0, m0, none_free(), row_free(Seq::<DataEntry>::empty(), sc));
 }
+
+// ---- blocks: scope evolution, free reads, declarations ----
+
+/// the declarations table only grows, and what it held is kept
+spec fn vs_ext(v0: Map<&str, (core::ops::Range<usize>, Expr)>, v1: Map<&str, (core::ops::Range<usize>, Expr)>) -> bool {
+    forall|k: &str| #[trigger] v0.contains_key(k) ==> v1.contains_key(k) && v1[k] == v0[k]
+}
+/// x is read by the expression of a declaration added between v0 and v1 (C14: a declared expression sees no variables,
+/// so every identifier in it is an output read)
+spec fn decl_reads(v0: Map<&str, (core::ops::Range<usize>, Expr)>, v1: Map<&str, (core::ops::Range<usize>, Expr)>, x: Seq<char>) -> bool {
+    exists|k: &str| #[trigger] v1.contains_key(k) && !v0.contains_key(k) && expr_reads(v1[k].1, x)
+}
+/// the output reads of a block: free reads of its statements, and everything its declarations read
+spec fn blkp(ss: Seq<Stmt>, sc0: ISet<Seq<char>>, v0: Map<&str, (core::ops::Range<usize>, Expr)>, v1: Map<&str, (core::ops::Range<usize>, Expr)>) -> spec_fn(Seq<char>) -> bool {
+    |x: Seq<char>| block_free(ss, sc0, x) || decl_reads(v0, v1, x)
+}
+
+proof fn lemma_scope_after_block_push(ss: Seq<Stmt>, s: Stmt, sc0: ISet<Seq<char>>, n: int)
+    requires 0 <= n <= ss.len()
+    ensures scope_after_block(ss.push(s), sc0, n) == scope_after_block(ss, sc0, n)
+    decreases n
+{
+    if n > 0 {
+        lemma_scope_after_block_push(ss, s, sc0, n - 1);
+        assert(ss.push(s)[n - 1] == ss[n - 1]);
+    }
+}
+proof fn lemma_scope_after_push(ss: Seq<Stmt>, s: Stmt, sc0: ISet<Seq<char>>)
+    ensures scope_after_block(ss.push(s), sc0, ss.len() as int + 1) == scope_after(s, scope_after_block(ss, sc0, ss.len() as int))
+{
+    lemma_scope_after_block_push(ss, s, sc0, ss.len() as int);
+    assert(ss.push(s)[ss.len() as int] == s);
+}
+proof fn lemma_block_free_push(ss: Seq<Stmt>, s: Stmt, sc0: ISet<Seq<char>>, x: Seq<char>)
+    ensures block_free(ss.push(s), sc0, x) <==> (block_free(ss, sc0, x) || stmt_free(s, scope_after_block(ss, sc0, ss.len() as int), x))
+{
+    let s2 = ss.push(s);
+    let n = ss.len() as int;
+    if block_free(ss, sc0, x) {
+        let i = choose|i: int| #[trigger] wi(i) && 0 <= i < ss.len() && stmt_free(ss[i], scope_after_block(ss, sc0, i), x);
+        lemma_scope_after_block_push(ss, s, sc0, i);
+        assert(wi(i) && s2[i] == ss[i]);
+    }
+    if stmt_free(s, scope_after_block(ss, sc0, n), x) {
+        lemma_scope_after_block_push(ss, s, sc0, n);
+        assert(wi(n) && s2[n] == s);
+    }
+    if block_free(s2, sc0, x) {
+        let i = choose|i: int| #[trigger] wi(i) && 0 <= i < s2.len() && stmt_free(s2[i], scope_after_block(s2, sc0, i), x);
+        lemma_scope_after_block_push(ss, s, sc0, i);
+        if i < n { assert(wi(i) && s2[i] == ss[i]); } else { assert(s2[i] == s); }
+    }
+}
+proof fn lemma_block_free_single(s: Stmt, sc: ISet<Seq<char>>, x: Seq<char>)
+    ensures block_free(seq![s], sc, x) <==> stmt_free(s, sc, x)
+{
+    let ss = seq![s];
+    assert(scope_after_block(ss, sc, 0) == sc);
+    if stmt_free(s, sc, x) { assert(wi(0) && ss[0] == s); }
+    if block_free(ss, sc, x) {
+        let i = choose|i: int| #[trigger] wi(i) && 0 <= i < ss.len() && stmt_free(ss[i], scope_after_block(ss, sc, i), x);
+        assert(i == 0 && ss[0] == s);
+    }
+}
+proof fn lemma_block_free_empty(sc: ISet<Seq<char>>, x: Seq<char>)
+    ensures !block_free(Seq::<Stmt>::empty(), sc, x)
+{
+}
+proof fn lemma_decl_reads_trans(v0: Map<&str, (core::ops::Range<usize>, Expr)>, v1: Map<&str, (core::ops::Range<usize>, Expr)>, v2: Map<&str, (core::ops::Range<usize>, Expr)>, x: Seq<char>)
+    requires vs_ext(v0, v1), vs_ext(v1, v2)
+    ensures decl_reads(v0, v2, x) <==> (decl_reads(v0, v1, x) || decl_reads(v1, v2, x)), vs_ext(v0, v2)
+{
+    if decl_reads(v0, v1, x) {
+        let k = choose|k: &str| #[trigger] v1.contains_key(k) && !v0.contains_key(k) && expr_reads(v1[k].1, x);
+        assert(v2.contains_key(k) && v2[k] == v1[k]);
+    }
+    if decl_reads(v1, v2, x) {
+        let k = choose|k: &str| #[trigger] v2.contains_key(k) && !v1.contains_key(k) && expr_reads(v2[k].1, x);
+        assert(!v0.contains_key(k));
+    }
+    if decl_reads(v0, v2, x) {
+        let k = choose|k: &str| #[trigger] v2.contains_key(k) && !v0.contains_key(k) && expr_reads(v2[k].1, x);
+        if v1.contains_key(k) { assert(v2[k] == v1[k]); }
+    }
+}
+proof fn lemma_decl_reads_none(v: Map<&str, (core::ops::Range<usize>, Expr)>, x: Seq<char>)
+    ensures !decl_reads(v, v, x), vs_ext(v, v)
+{
+}
+/// one new statement s (and possibly declarations inside it)
+proof fn lemma_blk_step<V>(eo0: Map<&str, V>, eo_it: Map<&str, V>, eo1: Map<&str, V>, ss: Seq<Stmt>, s: Stmt, sc0: ISet<Seq<char>>,
+    v0: Map<&str, (core::ops::Range<usize>, Expr)>, v_it: Map<&str, (core::ops::Range<usize>, Expr)>, v1: Map<&str, (core::ops::Range<usize>, Expr)>, q: spec_fn(Seq<char>) -> bool)
+    requires
+        grows_by(eo0, eo_it, blkp(ss, sc0, v0, v_it)), grows_by(eo_it, eo1, q), vs_ext(v0, v_it), vs_ext(v_it, v1),
+        forall|x: Seq<char>| #[trigger] q(x) <==> (stmt_free(s, scope_after_block(ss, sc0, ss.len() as int), x) || decl_reads(v_it, v1, x)),
+    ensures
+        grows_by(eo0, eo1, blkp(ss.push(s), sc0, v0, v1)), vs_ext(v0, v1),
+{
+    let r = blkp(ss.push(s), sc0, v0, v1);
+    assert forall|x: Seq<char>| #[trigger] r(x) <==> (blkp(ss, sc0, v0, v_it)(x) || q(x)) by {
+        lemma_block_free_push(ss, s, sc0, x);
+        lemma_decl_reads_trans(v0, v_it, v1, x);
+    }
+    lemma_grows_trans(eo0, eo_it, eo1, blkp(ss, sc0, v0, v_it), q, r);
+    lemma_decl_reads_trans(v0, v_it, v1, Seq::<char>::empty());
+}
+/// a declaration (no new statement)
+proof fn lemma_blk_decl<V>(eo0: Map<&str, V>, eo_it: Map<&str, V>, eo1: Map<&str, V>, ss: Seq<Stmt>, sc0: ISet<Seq<char>>,
+    v0: Map<&str, (core::ops::Range<usize>, Expr)>, v_it: Map<&str, (core::ops::Range<usize>, Expr)>, v1: Map<&str, (core::ops::Range<usize>, Expr)>, q: spec_fn(Seq<char>) -> bool)
+    requires
+        grows_by(eo0, eo_it, blkp(ss, sc0, v0, v_it)), grows_by(eo_it, eo1, q), vs_ext(v0, v_it), vs_ext(v_it, v1),
+        forall|x: Seq<char>| #[trigger] q(x) <==> decl_reads(v_it, v1, x),
+    ensures
+        grows_by(eo0, eo1, blkp(ss, sc0, v0, v1)), vs_ext(v0, v1),
+{
+    let r = blkp(ss, sc0, v0, v1);
+    assert forall|x: Seq<char>| #[trigger] r(x) <==> (blkp(ss, sc0, v0, v_it)(x) || q(x)) by {
+        lemma_decl_reads_trans(v0, v_it, v1, x);
+    }
+    lemma_grows_trans(eo0, eo_it, eo1, blkp(ss, sc0, v0, v_it), q, r);
+    lemma_decl_reads_trans(v0, v_it, v1, Seq::<char>::empty());
+}
+proof fn lemma_blk_start<V>(eo0: Map<&str, V>, sc0: ISet<Seq<char>>, v0: Map<&str, (core::ops::Range<usize>, Expr)>)
+    ensures grows_by(eo0, eo0, blkp(Seq::<Stmt>::empty(), sc0, v0, v0)), vs_ext(v0, v0)
+{
+    lemma_grows_refl(eo0);
+    assert forall|x: Seq<char>| #[trigger] blkp(Seq::<Stmt>::empty(), sc0, v0, v0)(x) <==> none_free()(x) by {
+        lemma_block_free_empty(sc0, x); lemma_decl_reads_none(v0, x);
+    }
+    lemma_grows_same(eo0, eo0, none_free(), blkp(Seq::<Stmt>::empty(), sc0, v0, v0));
+}
+
+// ---- one lemma per statement kind (what the statement loop calls) ----
+proof fn lemma_arm_row<V>(eo0: Map<&str, V>, eo_it: Map<&str, V>, eo1: Map<&str, V>, ss: Seq<Stmt>, data: Vec<DataEntry>, line: usize, sc0: ISet<Seq<char>>,
+    v0: Map<&str, (core::ops::Range<usize>, Expr)>, v_it: Map<&str, (core::ops::Range<usize>, Expr)>)
+    requires grows_by(eo0, eo_it, blkp(ss, sc0, v0, v_it)), vs_ext(v0, v_it),
+        grows_by(eo_it, eo1, row_free(data@, scope_after_block(ss, sc0, ss.len() as int))),
+    ensures grows_by(eo0, eo1, blkp(ss.push(Stmt::DataRow { data, line }), sc0, v0, v_it)),
+        scope_after_block(ss.push(Stmt::DataRow { data, line }), sc0, ss.len() as int + 1) == scope_after_block(ss, sc0, ss.len() as int),
+{
+    let s = Stmt::DataRow { data, line };
+    let sc = scope_after_block(ss, sc0, ss.len() as int);
+    let q = row_free(data@, sc);
+    assert forall|x: Seq<char>| #[trigger] q(x) <==> (stmt_free(s, sc, x) || decl_reads(v_it, v_it, x)) by { lemma_decl_reads_none(v_it, x); }
+    lemma_decl_reads_none(v_it, Seq::<char>::empty());
+    lemma_blk_step(eo0, eo_it, eo1, ss, s, sc0, v0, v_it, v_it, q);
+    lemma_scope_after_push(ss, s, sc0);
+}
+proof fn lemma_arm_let<V>(eo0: Map<&str, V>, eo_it: Map<&str, V>, eo1: Map<&str, V>, ss: Seq<Stmt>, name: String, expr: Expr, sc0: ISet<Seq<char>>,
+    v0: Map<&str, (core::ops::Range<usize>, Expr)>, v_it: Map<&str, (core::ops::Range<usize>, Expr)>)
+    requires grows_by(eo0, eo_it, blkp(ss, sc0, v0, v_it)), vs_ext(v0, v_it),
+        grows_by(eo_it, eo1, free_in_expr(expr, scope_after_block(ss, sc0, ss.len() as int))),
+    ensures grows_by(eo0, eo1, blkp(ss.push(Stmt::Let { name, expr }), sc0, v0, v_it)),
+        scope_after_block(ss.push(Stmt::Let { name, expr }), sc0, ss.len() as int + 1) == scope_after_block(ss, sc0, ss.len() as int).insert(name@),
+{
+    let s = Stmt::Let { name, expr };
+    let sc = scope_after_block(ss, sc0, ss.len() as int);
+    let q = free_in_expr(expr, sc);
+    assert forall|x: Seq<char>| #[trigger] q(x) <==> (stmt_free(s, sc, x) || decl_reads(v_it, v_it, x)) by { lemma_decl_reads_none(v_it, x); }
+    lemma_decl_reads_none(v_it, Seq::<char>::empty());
+    lemma_blk_step(eo0, eo_it, eo1, ss, s, sc0, v0, v_it, v_it, q);
+    lemma_scope_after_push(ss, s, sc0);
+}
+proof fn lemma_arm_reset<V>(eo0: Map<&str, V>, eo_it: Map<&str, V>, ss: Seq<Stmt>, sc0: ISet<Seq<char>>,
+    v0: Map<&str, (core::ops::Range<usize>, Expr)>, v_it: Map<&str, (core::ops::Range<usize>, Expr)>)
+    requires grows_by(eo0, eo_it, blkp(ss, sc0, v0, v_it)), vs_ext(v0, v_it),
+    ensures grows_by(eo0, eo_it, blkp(ss.push(Stmt::ResetRandom), sc0, v0, v_it)),
+        scope_after_block(ss.push(Stmt::ResetRandom), sc0, ss.len() as int + 1) == scope_after_block(ss, sc0, ss.len() as int),
+{
+    let s = Stmt::ResetRandom;
+    let sc = scope_after_block(ss, sc0, ss.len() as int);
+    lemma_grows_refl(eo_it);
+    assert forall|x: Seq<char>| #[trigger] none_free()(x) <==> (stmt_free(s, sc, x) || decl_reads(v_it, v_it, x)) by { lemma_decl_reads_none(v_it, x); }
+    lemma_decl_reads_none(v_it, Seq::<char>::empty());
+    lemma_blk_step(eo0, eo_it, eo_it, ss, s, sc0, v0, v_it, v_it, none_free());
+    lemma_scope_after_push(ss, s, sc0);
+}
+proof fn lemma_arm_loop<V>(eo0: Map<&str, V>, eo_it: Map<&str, V>, eo_a: Map<&str, V>, eo1: Map<&str, V>, ss: Seq<Stmt>, variable: String, max: Expr, inner: Vec<Stmt>,
+    sc0: ISet<Seq<char>>, v0: Map<&str, (core::ops::Range<usize>, Expr)>, v_it: Map<&str, (core::ops::Range<usize>, Expr)>, v1: Map<&str, (core::ops::Range<usize>, Expr)>)
+    requires grows_by(eo0, eo_it, blkp(ss, sc0, v0, v_it)), vs_ext(v0, v_it), vs_ext(v_it, v1),
+        grows_by(eo_it, eo_a, free_in_expr(max, scope_after_block(ss, sc0, ss.len() as int))),
+        grows_by(eo_a, eo1, blkp(inner@, scope_after_block(ss, sc0, ss.len() as int).insert(variable@), v_it, v1)),
+    ensures grows_by(eo0, eo1, blkp(ss.push(Stmt::Loop { variable, max, inner }), sc0, v0, v1)), vs_ext(v0, v1),
+        scope_after_block(ss.push(Stmt::Loop { variable, max, inner }), sc0, ss.len() as int + 1) == scope_after_block(ss, sc0, ss.len() as int),
+{
+    let s = Stmt::Loop { variable, max, inner };
+    let sc = scope_after_block(ss, sc0, ss.len() as int);
+    let p1 = free_in_expr(max, sc);
+    let p2 = blkp(inner@, sc.insert(variable@), v_it, v1);
+    let q = |x: Seq<char>| p1(x) || p2(x);
+    lemma_grows_trans(eo_it, eo_a, eo1, p1, p2, q);
+    assert forall|x: Seq<char>| #[trigger] q(x) <==> (stmt_free(s, sc, x) || decl_reads(v_it, v1, x)) by { }
+    lemma_blk_step(eo0, eo_it, eo1, ss, s, sc0, v0, v_it, v1, q);
+    lemma_scope_after_push(ss, s, sc0);
+}
+proof fn lemma_arm_repeat<V>(eo0: Map<&str, V>, eo_it: Map<&str, V>, eo_a: Map<&str, V>, eo1: Map<&str, V>, ss: Seq<Stmt>, variable: String, max: Expr, inner: Vec<Stmt>,
+    data: Vec<DataEntry>, line: usize, sc0: ISet<Seq<char>>, v0: Map<&str, (core::ops::Range<usize>, Expr)>, v_it: Map<&str, (core::ops::Range<usize>, Expr)>)
+    requires grows_by(eo0, eo_it, blkp(ss, sc0, v0, v_it)), vs_ext(v0, v_it), inner@ =~= seq![Stmt::DataRow { data, line }],
+        grows_by(eo_it, eo_a, free_in_expr(max, scope_after_block(ss, sc0, ss.len() as int))),
+        grows_by(eo_a, eo1, row_free(data@, scope_after_block(ss, sc0, ss.len() as int).insert(variable@))),
+    ensures grows_by(eo0, eo1, blkp(ss.push(Stmt::Loop { variable, max, inner }), sc0, v0, v_it)),
+        scope_after_block(ss.push(Stmt::Loop { variable, max, inner }), sc0, ss.len() as int + 1) == scope_after_block(ss, sc0, ss.len() as int),
+{
+    let s = Stmt::Loop { variable, max, inner };
+    let sc = scope_after_block(ss, sc0, ss.len() as int);
+    let p1 = free_in_expr(max, sc);
+    let p2 = row_free(data@, sc.insert(variable@));
+    let q = |x: Seq<char>| p1(x) || p2(x);
+    lemma_grows_trans(eo_it, eo_a, eo1, p1, p2, q);
+    assert forall|x: Seq<char>| #[trigger] q(x) <==> (stmt_free(s, sc, x) || decl_reads(v_it, v_it, x)) by {
+        lemma_decl_reads_none(v_it, x);
+        lemma_block_free_single(Stmt::DataRow { data, line }, sc.insert(variable@), x);
+    }
+    lemma_decl_reads_none(v_it, Seq::<char>::empty());
+    lemma_blk_step(eo0, eo_it, eo1, ss, s, sc0, v0, v_it, v_it, q);
+    lemma_scope_after_push(ss, s, sc0);
+}
+proof fn lemma_arm_while<V>(eo0: Map<&str, V>, eo_it: Map<&str, V>, eo_a: Map<&str, V>, eo1: Map<&str, V>, ss: Seq<Stmt>, condition: Expr, inner: Vec<Stmt>,
+    sc0: ISet<Seq<char>>, v0: Map<&str, (core::ops::Range<usize>, Expr)>, v_it: Map<&str, (core::ops::Range<usize>, Expr)>, v1: Map<&str, (core::ops::Range<usize>, Expr)>)
+    requires grows_by(eo0, eo_it, blkp(ss, sc0, v0, v_it)), vs_ext(v0, v_it), vs_ext(v_it, v1),
+        grows_by(eo_it, eo_a, free_in_expr(condition, scope_after_block(ss, sc0, ss.len() as int))),
+        grows_by(eo_a, eo1, blkp(inner@, scope_after_block(ss, sc0, ss.len() as int), v_it, v1)),
+    ensures grows_by(eo0, eo1, blkp(ss.push(Stmt::While { condition, inner }), sc0, v0, v1)), vs_ext(v0, v1),
+        scope_after_block(ss.push(Stmt::While { condition, inner }), sc0, ss.len() as int + 1)
+            == scope_after_block(inner@, scope_after_block(ss, sc0, ss.len() as int), inner@.len() as int),
+{
+    let s = Stmt::While { condition, inner };
+    let sc = scope_after_block(ss, sc0, ss.len() as int);
+    let p1 = free_in_expr(condition, sc);
+    let p2 = blkp(inner@, sc, v_it, v1);
+    let q = |x: Seq<char>| p1(x) || p2(x);
+    lemma_grows_trans(eo_it, eo_a, eo1, p1, p2, q);
+    assert forall|x: Seq<char>| #[trigger] q(x) <==> (stmt_free(s, sc, x) || decl_reads(v_it, v1, x)) by { }
+    lemma_blk_step(eo0, eo_it, eo1, ss, s, sc0, v0, v_it, v1, q);
+    lemma_scope_after_push(ss, s, sc0);
+}
+proof fn lemma_arm_declare<V>(eo0: Map<&str, V>, eo_it: Map<&str, V>, eo1: Map<&str, V>, ss: Seq<Stmt>, sc0: ISet<Seq<char>>,
+    v0: Map<&str, (core::ops::Range<usize>, Expr)>, v_it: Map<&str, (core::ops::Range<usize>, Expr)>, v1: Map<&str, (core::ops::Range<usize>, Expr)>,
+    name: &str, span: core::ops::Range<usize>, expr: Expr, sce: ISet<Seq<char>>)
+    requires grows_by(eo0, eo_it, blkp(ss, sc0, v0, v_it)), vs_ext(v0, v_it),
+        forall|x: Seq<char>| !sce.contains(x),
+        grows_by(eo_it, eo1, free_in_expr(expr, sce)),
+        !v_it.contains_key(name), v1 == v_it.insert(name, (span, expr)),
+    ensures grows_by(eo0, eo1, blkp(ss, sc0, v0, v1)), vs_ext(v0, v1),
+{
+    let q = free_in_expr(expr, sce);
+    assert(vs_ext(v_it, v1));
+    assert forall|x: Seq<char>| #[trigger] q(x) <==> decl_reads(v_it, v1, x) by {
+        if expr_reads(expr, x) { assert(v1.contains_key(name) && !v_it.contains_key(name) && v1[name].1 == expr); }
+        if decl_reads(v_it, v1, x) {
+            let k = choose|k: &str| #[trigger] v1.contains_key(k) && !v_it.contains_key(k) && expr_reads(v1[k].1, x);
+            assert(k == name);
+        }
+    }
+    lemma_blk_decl(eo0, eo_it, eo1, ss, sc0, v0, v_it, v1, q);
+}
+
+// ---- the FramedSet<&str> operations on the scope view ----
+
+// [A-std] std's reflexive `impl<T> Into<T> for T` is the identity (FramedSet::insert takes `impl Into<K>`)
+#[verifier::external_body]
+proof fn axiom_reflexive_into_str()
+    ensures
+        <&str as IntoSpec<&str>>::obeys_into_spec(),
+        forall|a: &str| #[trigger] <&str as IntoSpec<&str>>::into_spec(a) == a,
+{
+}
+proof fn lemma_find_from_result<K: PartialEq, V>(s: Seq<(K, V)>, from: int, key: K)
+    requires 0 <= from
+    ensures match find_from(s, from, key) { Some(i) => from <= i < s.len() && s[i].0.eq_spec(&key), None => true }
+    decreases s.len() - from
+{
+    if from < s.len() && !s[from].0.eq_spec(&key) { lemma_find_from_result(s, from + 1, key); }
+}
+/// inserting a name: the scope gains it; what was there stays where it was
+proof fn lemma_scope_insert(v0: FramedSet<&str>, v1: FramedSet<&str>, name: &str)
+    requires v0.map.wf(),
+        match find_from(v0.map.values@, v0.map.frame_start(), name) {
+            Some(i) => v1.map.values@ == v0.map.values@.update(i, (v0.map.values@[i].0, ())),
+            None => v1.map.values@ == v0.map.values@.push((name, ())),
+        },
+    ensures scope_of(v1) == scope_of(v0).insert(name@),
+        v1.map.values@.len() >= v0.map.values@.len(), v1.map.values@.take(v0.map.values@.len() as int) =~= v0.map.values@,
+{
+    axiom_string_model();
+    let s0 = v0.map.values@; let s1 = v1.map.values@;
+    lemma_find_from_result(s0, v0.map.frame_start(), name);
+    match find_from(s0, v0.map.frame_start(), name) {
+        Some(i) => {
+            assert(s0[i].1 == ());
+            assert(s0[i] == (s0[i].0, ()));
+            assert(s1 =~= s0);
+            assert(s0[i].0@ == name@);
+            assert(scope_of(v1) =~= scope_of(v0).insert(name@)) by {
+                assert(scope_of(v0).contains(name@));
+            }
+        }
+        None => {
+            assert(scope_of(v1) =~= scope_of(v0).insert(name@)) by {
+                assert forall|x: Seq<char>| scope_of(v1).contains(x) <==> (scope_of(v0).contains(x) || x == name@) by {
+                    if scope_of(v0).contains(x) {
+                        let i = choose|i: int| 0 <= i < s0.len() && (#[trigger] s0[i]).0@ == x;
+                        assert(s1[i] == s0[i]);
+                    }
+                    if x == name@ { assert(s1[s0.len() as int].0@ == x); }
+                    if scope_of(v1).contains(x) {
+                        let i = choose|i: int| 0 <= i < s1.len() && (#[trigger] s1[i]).0@ == x;
+                        if i < s0.len() { assert(s1[i] == s0[i]); }
+                    }
+                }
+            }
+        }
+    }
+}
+/// same values, same scope
+proof fn lemma_scope_same_values(v0: FramedSet<&str>, v1: FramedSet<&str>)
+    requires v0.map.values@ == v1.map.values@
+    ensures scope_of(v0) == scope_of(v1)
+{
+    assert(scope_of(v0) =~= scope_of(v1));
+}
+proof fn lemma_scope_empty(v: FramedSet<&str>)
+    requires v.map.values@.len() == 0
+    ensures forall|x: Seq<char>| !scope_of(v).contains(x)
+{
+}
+
+/// x is one of the listed names
+spec fn listed_name(l: Seq<(String, core::ops::Range<usize>)>, x: Seq<char>) -> bool {
+    exists|i: int| 0 <= i < l.len() && (#[trigger] l[i]).0@ == x
+}
+/// x is read by the expression of one of the declared virtual signals
+spec fn vs_list_reads(l: Seq<(VirtualSignal, core::ops::Range<usize>)>, x: Seq<char>) -> bool {
+    exists|j: int| 0 <= j < l.len() && expr_reads((#[trigger] l[j]).0.expr, x)
+}
